@@ -57,8 +57,11 @@ pub mod auth_zone_env {
     }
     #[verifier::external_body]
     pub const fn decimal_zero() -> (r: Decimal) ensures dec_val(r) == 0 { Decimal([0, 0, 0]) }
+    #[verifier::external_body]
+    pub const fn decimal_max() -> (r: Decimal) ensures dec_val(r) == 0x7fff_ffff_ffff_ffff_ffff_ffff_ffff_ffff_ffff_ffff_ffff_ffffint { Decimal([u64::MAX, u64::MAX, u64::MAX >> 1]) }
     impl Decimal {
         pub exec const ZERO: Decimal ensures dec_val(Self::ZERO) == 0 { decimal_zero() }
+        pub exec const MAX: Decimal ensures dec_val(Self::MAX) == 0x7fff_ffff_ffff_ffff_ffff_ffff_ffff_ffff_ffff_ffff_ffff_ffffint { decimal_max() }
         #[verifier::external_body]
         pub fn zero() -> (r: Decimal) ensures dec_val(r) == 0 { unimplemented!() }
         /// Decimal::checked_add: None exactly on 192-bit overflow
